@@ -1,6 +1,6 @@
 (* The fixed application handler used by the session engine (mirrors harness/src/session.rs : raw_handler).
    It is one instance of the `handler` parameter of the Cli model; the theorems quantify over all handlers. *)
-From EC Require Import Base Model.Utils Model.Args Model.Writer.
+From EC Require Import Base Model.Utils Model.Args Model.Writer Spec.ArgSpec.
 
 Definition PROMPTS : list (list N) :=
   [ []; [36; 32]; [0xCE; 0xBB; 0xE2; 0x86; 0x92; 32]; [97; 98; 99; 62; 32] ].
@@ -22,6 +22,31 @@ Fixpoint intersperse (sep : hop) (l : list hop) : list hop :=
   | x :: r => x :: sep :: intersperse sep r
   end.
 
+(* literal format strings of the `g` action / writer op (mirrors harness/src/session.rs : write_literal) *)
+Definition LITS : list (list N) :=
+  [ [100;111;110;101]; [111;110;101;10;116;119;111;10]; []; [120;10]; [97;13;10;98]; [116;97;105;108;13]; [0xC3;0xA9;10;10]; [10] ].
+Definition lit_of (i : nat) : list N := nth (Nat.modulo i 8) LITS [].
+Definition first_of (t : list N) : nat := match t with b :: _ => N.to_nat b | [] => 0 end.
+
+(* one action of the scripted `do` command: the first byte of the value selects it, the rest is its text *)
+Definition do_action (v : list N) : list hop :=
+  match v with
+  | [] => []
+  | k :: t =>
+    if N.eqb k 115 (* s *) then [HWrite t]
+    else if N.eqb k 108 (* l *) then [HWriteln t]
+    else if N.eqb k 110 (* n *) then [HWrite (t ++ [10])]
+    else if N.eqb k 109 (* m *) then [HWrite (t ++ [10] ++ t)]
+    else if N.eqb k 112 (* p *) then [HSetPrompt (prompt_of (Nat.modulo (first_of t) 4))]
+    else if N.eqb k 103 (* g *) then [HWrite (lit_of (first_of t))]
+    else if N.eqb k 99 (* c *) then map HWrite (chars_of t)
+    else if N.eqb k 102 (* f *) then [HWrite t]
+    else if N.eqb k 117 (* u *) then [HWrite t]
+    else if N.eqb k 116 (* t *) then title_hops t
+    else if N.eqb k 101 (* e *) then list_element_hops t t (Nat.modulo (first_of t) 8)
+    else []
+  end.
+
 Definition handler_raw (n : nat) (name : list N) (args : list (list N)) : list hop :=
   match args_of args with
   | None => []
@@ -40,6 +65,7 @@ Definition handler_raw (n : nat) (name : list N) (args : list (list N)) : list h
       | _ => []
       end
     else if list_eqb name [113;117;105;101;116] (* quiet *) then []
+    else if list_eqb name [100;111] (* do *) then flat_map do_action vals
     else if list_eqb name [101;109;112;116;121] (* empty *) then [HWrite []]
     else HWrite name :: flat_map (fun a => [HWrite [32]; HWrite (arg_repr a)]) items
   end.
